@@ -394,6 +394,7 @@ class WRec:
         self.procs = []
         self.launch_attempts = []
         self.reported_after_failure = None
+        self.poll_instant, self.poll_count = None, 0
         self.files = set()
         self.cleanups = 0
         self.extras = []
@@ -1876,6 +1877,14 @@ def make_stub_poll(sim, rec):
 
         def is_finished(self):
             world.fire_due()
+            # polling without ever letting time pass: the virtual clock only moves in sleep(), so a loop that asks
+            # again and again at the same instant would spin for ever (on a real clock it would burn a core)
+            if rec.poll_instant == world.now:
+                rec.poll_count += 1
+                if rec.poll_count > 20000:
+                    raise sw.SimDeadlock("is_finished() asked more than 20000 times at the same instant (busy wait without sleep)")
+            else:
+                rec.poll_instant, rec.poll_count = world.now, 0
             if web:
                 last = rec.web_last
                 if last is not None and 0 <= world.now - last < web["gap"]:
